@@ -165,7 +165,12 @@ STEM = "c02_g0_t0.imec0.ap"
 
 
 class CompModel(object):
-    fault_kinds = ("kill", "error")
+    fault_kinds = ("kill", "error", "corrupt")
+
+    @staticmethod
+    def corruptible(event, label):
+        # a compressed chunk that reaches the disk damaged: compression with its (default) verification pass must notice and fail
+        return event["name"] == "compress_file" and event.get("check_after_compress") is not False and label == "step:compress-chunk"
 
     @staticmethod
     def info_key(info):
@@ -209,7 +214,13 @@ class CompModel(object):
             if not (os.path.exists(fcbin) and os.path.exists(fch)):
                 return None, None
             target = fcbin
-        steps = [(mtscomp.Writer, "_compress_chunk", "compress-chunk"), (mtscomp.Reader, "_decompress_chunk", "decompress-chunk"),
+        def damage(res):
+            import zlib
+            idx, (chunk, cdc) = res
+            raw = bytearray(zlib.decompress(cdc))
+            raw[len(raw) // 2] ^= 0x01
+            return idx, (chunk, zlib.compress(bytes(raw)))
+        steps = [(mtscomp.Writer, "_compress_chunk", "compress-chunk", damage), (mtscomp.Reader, "_decompress_chunk", "decompress-chunk"),
                  (mtscomp, "check", "post-check")]
         obs = dict(status=None, exc=None)
         with faults.watch(root, crash_at=crash_at, steps=steps, kind=kind) as w:
@@ -260,7 +271,7 @@ class CompModel(object):
         fbin = os.path.join(root, STEM + ".bin")
         fcbin = os.path.join(root, STEM + ".cbin")
         fch = os.path.join(root, STEM + ".ch")
-        ctx = "%s%s" % (_ev(event), "" if crash is None else " %s point %d (%s)" % ("killed before" if fault == "kill" else "with an I/O error injected at", crash, log[crash] if crash < len(log) else "?"))
+        ctx = "%s%s" % (_ev(event), "" if crash is None else " %s point %d (%s)" % ({"kill": "killed before", "error": "with an I/O error injected at", "corrupt": "with the data written at"}.get(fault, fault) + (" damaged:" if fault == "corrupt" else ""), crash, log[crash] if crash < len(log) else "?"))
         failed = crash is not None and (fault == "kill" or obs.get("exc") is not None)
         bin_ok = os.path.exists(fbin) and open(fbin, "rb").read() == raw
         cbin_dec = self._decode(fcbin, fch) if (os.path.exists(fcbin) and os.path.exists(fch)) else None
